@@ -269,4 +269,34 @@ def handleTree (toks : List String) : String :=
     | _, _ => "bad-op"
   | _ => "bad-op"
 
+/-- `tree.composed <flags> <nodes>`: the expected tree (the specification of create + extract) against the
+    composition of the two transcriptions — the entries `create` archives (walk order: parents first), run
+    through `extractAll` on an empty output directory of the abstract file system.  Answers `ok agree`, or
+    what differs. -/
+def handleTreeComposed (toks : List String) : String :=
+  match toks with
+  | [flags, nodes] =>
+    match flags.toList, tnodes? nodes with
+    | [kd, ktc, kpc, ktx, kpx], some t =>
+      let o : CXOpts := ⟨kd == '1', ktc == '1', kpc == '1', ktx == '1', kpx == '1'⟩
+      let walk := t.toArray.qsort (fun a b => bytesLt a.path b.path) |>.toList
+      let es : List XEntry := (archived o walk).map fun n => ⟨sanitize n.path, n.kind, if n.kind = 1 then [] else n.content⟩
+      let r : Bytes := [114]
+      let out : Bytes := [111, 117, 116]
+      let fs0 : Fs.Fs := ⟨[([r], .dir), ([r, out], .dir)], [], 1⟩
+      let (fs', err) := extractAll false [r] out fs0 es
+      let got := (fs'.nodes.filter fun (p, _) => [r, out].isPrefixOf p && p != [r, out]).map fun (p, n) =>
+        let rel := joinSlash (p.drop 2)
+        match n with
+        | .dir => (rel, 1, ([] : Bytes))
+        | .link tg => (rel, 2, tg)
+        | .file ino => (rel, 0, fs'.content ino)
+      let want := (expectedTree o t).map fun x => (x.path, x.kind, x.content)
+      let srt := fun (l : List (Bytes × Nat × Bytes)) => l.toArray.qsort (fun a b => bytesLt a.1 b.1) |>.toList
+      if err.isSome then "ok differ extraction-error"
+      else if srt got == srt want then "ok agree"
+      else s!"ok differ composed={(srt got).length} expected={(srt want).length}"
+    | _, _ => "bad-op"
+  | _ => "bad-op"
+
 end Pna.Cli.Wire
